@@ -13,6 +13,9 @@ const prettyPrintValue = (it: unknown): string => {
   if (it === null) {
     return "null";
   }
+  if (typeof it === "bigint") {
+    return `${it}n`;
+  }
   if (Array.isArray(it)) {
     return `Array`;
   }
